@@ -54,11 +54,15 @@ TrUpd == /\ IsEvent("upd") /\ Cur.host = hv
          /\ effAt' = IF Cur.cls # ucls THEN l ELSE effAt
          /\ UNCHANGED <<limit, hv, conn, opn, win, failed, gotAt, held, pushedU, flight, fin>>
 
-TrConnected == /\ IsEvent("connected") /\ Cur.c \notin DOMAIN conn
-               /\ conn' = Put(conn, Cur.c, [st |-> "up", conAt |-> l, sup |-> "unknown"])
-               /\ failed' = Put(failed, Cur.c, {}) /\ gotAt' = Put(gotAt, Cur.c, <<>>) /\ held' = Put(held, Cur.c, -1)
-               /\ pushedU' = Put(pushedU, Cur.c, {})
-               /\ UNCHANGED <<limit, hv, u1, u2, ucls, effAt, opn, win, flight, fin>>
+\* the swarm is about to deliver Connected(c) ... and has done so (from then on a new round cannot miss c)
+TrConnecting == /\ IsEvent("connecting") /\ Cur.c \notin DOMAIN conn
+                /\ conn' = Put(conn, Cur.c, [st |-> "up", conAt |-> 1000000000, sup |-> "unknown"])
+                /\ failed' = Put(failed, Cur.c, {}) /\ gotAt' = Put(gotAt, Cur.c, <<>>) /\ held' = Put(held, Cur.c, -1)
+                /\ pushedU' = Put(pushedU, Cur.c, {})
+                /\ UNCHANGED <<limit, hv, u1, u2, ucls, effAt, opn, win, flight, fin>>
+TrConnected == /\ IsEvent("connected") /\ Cur.c \in DOMAIN conn
+               /\ conn' = [conn EXCEPT ![Cur.c].conAt = l]
+               /\ UNCHANGED <<limit, hv, u1, u2, ucls, effAt, opn, win, failed, gotAt, held, pushedU, flight, fin>>
 
 TrIdentified == /\ IsEvent("identified") /\ Cur.c \in DOMAIN conn
                 /\ conn' = [conn EXCEPT ![Cur.c].sup = IF Cur.sup THEN "yes" ELSE "no"]
@@ -120,7 +124,7 @@ TrRest ==
            \/ \E f \in failed[c] : f > effAt
   /\ UNCHANGED <<limit, hv, u1, u2, ucls, effAt, conn, opn, win, failed, gotAt, held, pushedU, flight, fin>>
 
-TraceNext == \/ TrReset \/ TrChange \/ TrUpd \/ TrConnected \/ TrIdentified \/ TrDisconnected \/ TrOpen \/ TrWstart
+TraceNext == \/ TrReset \/ TrChange \/ TrUpd \/ TrConnecting \/ TrConnected \/ TrIdentified \/ TrDisconnected \/ TrOpen \/ TrWstart
              \/ TrFail \/ TrEnd \/ TrDeliver \/ TrFinal \/ TrRest
 TraceSpec == TraceInit /\ [][TraceNext]_vars
 
